@@ -12,6 +12,9 @@
 //              reg: iwjsreg_merge(registry whose root is a heap clone of the target, pointer, value)
 //   mergetext <njson|jbl> <patch text hex> <target wire tokens>
 //              the text entry points with a text that is not JSON: answer <ok|error> <doc> kl=/same=
+//   bmerge <jbl|jbljbl> <binn bytes hex> | <patch wire tokens (jbl) or patch binn bytes hex (jbljbl)>
+//              the binary entry points on holders built over the given BYTES; answer: <rc> <bytes afterwards | scalar <wire>>
+//   bmseq <binn bytes hex> | <patch> | <patch> ...   jbl_merge_patch repeatedly on one holder: <rc>,<rc>,... <bytes afterwards>
 //   answer, tree modes:   <rc> <doc wire> kl=<0|1>
 //   answer, binary modes: <rc> <doc wire | NOCONTAINER> same=<0|1>
 #include "iwjsreg.c"   // white-box: the registry root is replaced by the generated target (iwjsreg.o is left out at link time)
@@ -31,6 +34,47 @@ static void tree_answer(iwrc rc, struct jbl_node *doc) {
   printf("%s ", hxp_rc(rc)); hxp_dump_node(doc); printf(" kl=%d\n", kl);
 }
 
+static void byte_ops(char **w, int n) {
+  int seq = !strcmp(w[0], "bmseq");
+  int hexpos = seq ? 1 : 2;
+  const char *mode = seq ? "jbl" : w[1];
+  if (n < hexpos + 3 || strcmp(w[hexpos + 1], "|") || (strcmp(mode, "jbl") && strcmp(mode, "jbljbl"))) { printf("bad-op\n"); return; }
+  iwrc rc = 0;
+  struct jbl *jbl = hxp_holder(w[hexpos], &rc);
+  if (!jbl) { printf("from-buf-%s\n", hxp_rc(rc)); return; }
+  struct iwpool *pool = iwpool_create(4096);
+  int pos = hexpos + 2, first = 1, bad = 0;
+  if (!strcmp(mode, "jbljbl")) {
+    struct jbl *pj = (n == pos + 1) ? hxp_holder(w[pos], &rc) : 0;
+    if (!pj) bad = 1;
+    else {
+      rc = jbl_merge_patch_jbl(jbl, pj);
+      printf("%s", hxp_rc(rc));
+      jbl_destroy(&pj);
+    }
+  } else {
+    while (pos < n && !bad) {
+      int end = pos;
+      while (end < n && strcmp(w[end], "|")) end++;
+      int pp = pos;
+      struct jbl_node *patch = hxj_build(w, end, &pp, pool, 0);
+      if (!patch || pp != end || (!seq && end != n)) { bad = 1; break; }
+      char *text = 0;
+      rc = jbn_as_json_alloc(patch, 0, &text);
+      if (rc) { bad = 1; break; }
+      rc = jbl_merge_patch(jbl, text);
+      free(text);
+      printf("%s%s", first ? "" : ",", hxp_rc(rc));
+      first = 0;
+      pos = end + 1;
+    }
+  }
+  if (bad) printf("%sbad-op\n", first ? "" : " ");
+  else { fputc(' ', stdout); hxp_dump_holder(jbl); fputc('\n', stdout); }
+  jbl_destroy(&jbl);
+  iwpool_destroy(pool);
+}
+
 int main(int argc, char **argv) {
   setvbuf(stdout, 0, _IOLBF, 0);
   hxp_watchdog_init();
@@ -39,6 +83,7 @@ int main(int argc, char **argv) {
   while (alarm(0), fgets(line, HX_MAXLINE, stdin)) {
     alarm(HXP_OP_SECONDS);
     int n = hx_words(line, w, 65536);
+    if (n >= 1 && (!strcmp(w[0], "bmerge") || !strcmp(w[0], "bmseq"))) { byte_ops(w, n); continue; }
     if (n >= 4 && !strcmp(w[0], "mergetext")) {
       struct iwpool *pool = iwpool_create(4096);
       int pos = 3;
